@@ -404,6 +404,36 @@ func runC13(r *mc.Run) {
 					add(fmt.Sprintf("trailing/critical+octet-string-len%d-after-%s", len(extra), k), base, world.DERSeq(it4...), wantErrorOrExact)
 				}
 			}
+			// a value that is too short, with further members in the element that make up exactly the missing bytes
+			// (the element as a whole has the length of a well-formed one): a wrongly sized value is an error
+			if k == "ppid" || k == "pceid" || k == "fmspc" {
+				sub := map[string]int{"ppid": 1, "pceid": 3, "fmspc": 4}[k]
+				val := map[string][]byte{"ppid": base.PPID, "pceid": base.PCEID, "fmspc": base.FMSPC}[k]
+				for short := 2; short <= len(val); short++ {
+					v := val[:len(val)-short]
+					fillers := map[string][]byte{
+						"integer":      world.DER(0x02, bytes.Repeat([]byte{0x11}, short-2)),
+						"octet-string": world.DEROctet(bytes.Repeat([]byte{0x22}, short-2)),
+					}
+					if short == 2 {
+						fillers = map[string][]byte{"null": world.DER(0x05)}
+					}
+					if short == 3 {
+						fillers["boolean"] = world.DER(0x01, []byte{0xff})
+					}
+					if short >= 4 {
+						fillers["integer+null"] = append(world.DER(0x02, bytes.Repeat([]byte{0x11}, short-4)), world.DER(0x05)...)
+					}
+					for fname, f := range fillers {
+						it5 := append([][]byte(nil), items...)
+						it5[i] = world.DERSeq(oid(sub), world.DEROctet(v), f)
+						add(fmt.Sprintf("compensated/%s-short-by-%d+%s-after", k, short, fname), base, world.DERSeq(it5...), wantError)
+						it6 := append([][]byte(nil), items...)
+						it6[i] = world.DERSeq(oid(sub), f, world.DEROctet(v))
+						add(fmt.Sprintf("compensated/%s-short-by-%d+%s-before", k, short, fname), base, world.DERSeq(it6...), wantError)
+					}
+				}
+			}
 			// raw garbage after the element inside the outer sequence
 			it2 := append([][]byte(nil), items...)
 			it2[i] = append(append([]byte(nil), items[i]...), 0x00)
